@@ -57,7 +57,7 @@ def _mods():
 
 # ------------------------------------------------------------------ replay
 
-def replay(model, target="oil.b_o_Standing", dtype="f8", n=2):
+def replay(model, target="oil.b_o_Standing", dtype="f8", n=2, intparams=False):
     import numpy as np
     import bluebonnet.fluids.oil as oil
     import bluebonnet.fluids.water as water
@@ -70,6 +70,11 @@ def replay(model, target="oil.b_o_Standing", dtype="f8", n=2):
     arr = np.array(vals, dtype=NP_DT[dtype])
     before = arr.copy()
     fl = Fluid(m["T"], m["api"], m["gg"], m["rsi"], m["S"])
+    if intparams:
+        # the caller passes whole numbers as Python ints (as every docstring example of the library does)
+        for k in ("T", "api", "rsi", "S"):
+            m[k] = int(round(m[k]))
+        fl = Fluid(m["T"], m["api"], m["gg"], m["rsi"], m["S"])
     T_, api, gg, rsi, S = m["T"], m["api"], m["gg"], m["rsi"], m["S"]
     table = {
         "oil.b_o_Standing": (lambda p: oil.b_o_Standing(T_, p, api, gg, rsi),) * 2,
@@ -101,7 +106,7 @@ def replay(model, target="oil.b_o_Standing", dtype="f8", n=2):
     tol = 1e-5 if dtype == "f4" else 1e-9
     if out.shape == arr.shape:
         for j in range(n):
-            want = float(fs(float(arr[j])))
+            want = float(fs(int(arr[j]) if (intparams and dtype.startswith("i")) else float(arr[j])))
             if not abs(float(out[j]) - want) <= tol * abs(want) + 1e-300:
                 problems.append(f"element {j}: array call gives {float(out[j])!r}, scalar call gives {want!r} (p={float(arr[j])!r})")
     return bool(problems), {"what": f"{target} on {NP_DT[dtype]}[{n}]: " + ("; ".join(problems[:3]) or "array == scalar"), "inputs": m}
@@ -119,22 +124,30 @@ def job_target(job, target, lengths):
     if key == "fluid":
         job.encoded(mod, "Fluid." + fn.split(".")[-1] if not fn.startswith("Fluid") else fn)
     job.bound(dtypes=list(DTYPES), lengths={k: list(v) for k, v in lengths.items()} if isinstance(lengths, dict) else list(lengths))
-    job.assume_text("element values are reals (binary32 / integer overflow not modelled); tolerance 1e-9 (1e-5 for float32); "
+    job.assume_text("element values are reals (binary32 rounding not modelled; integer wrap-around is a proved-absent condition); tolerance 1e-9 (1e-5 for float32); "
                     "strided / non-contiguous inputs are outside the model (memory layout is not modelled)")
-    vs, dom = box(None, S=(0, 25), **OILV)
+    vs_f, dom_f = box(None, S=(0, 25), **OILV)
+    vs_i, dom_i = box(None, _integer=("T", "api", "rsi", "S"), S=(0, 25), **OILV)
     if call_scalar is None:
         call_scalar = lambda ms, v, q: call_arr(mod, v, q)
-    for dt in DTYPES:
+    job.assume_text("integer dtypes: element values in [15, 20000]; 'python-int parameters' variant: temperature, API gravity, "
+                    "initial GOR and salinity are Python ints (whole numbers), gas gravity a float; integer-dtype array arithmetic "
+                    "must stay inside the dtype's range on that box (no silent wrap-around)")
+    variants = [(dt, False) for dt in DTYPES] + [(dt, True) for dt in ("i8", "i4")]
+    for dt, intp in variants:
+        vs, dom = (vs_i, dom_i) if intp else (vs_f, dom_f)
         for n in (lengths[dt] if isinstance(lengths, dict) else lengths):
-            els = [fresh(f"e{j}", pos=True) for j in range(n)]
+            if intp and n == 0:
+                continue
+            els = [fresh(f"e{j}", pos=True, integer=intp) for j in range(n)]
             edom = []
             for e in els:
                 edom += [T.b_le(T.Poly.const(15), P(e)), T.b_le(P(e), T.Poly.const(20000))]
-            rp = (replay, {"target": target, "dtype": dt, "n": n})
-            tag = f"{target}[{NP_DT[dt]},len={n}]"
+            rp = (replay, {"target": target, "dtype": dt, "n": n, "intparams": intp})
+            tag = f"{target}[{NP_DT[dt]}{',python-int parameters' if intp else ''},len={n}]"
 
             def run():
-                arr = SymArray(list(els), dt)
+                arr = SymArray([Sym(e.p) for e in els], dt)
                 snap = list(arr.d)
                 out = call_arr(mod, vs, arr)
                 scal = [call_scalar(mods, vs, e) for e in els]
@@ -161,7 +174,7 @@ def job_target(job, target, lengths):
                         struct.append("result contains an uninitialised element")
                 if touched:
                     struct.append("input array modified")
-                if struct and not (len(struct) == 1 and "dtype" in struct[0] and n == 0 and False):
+                if struct:
                     # structural facts are concrete on the path: confirm through the real function
                     job.prove(f"{tag}/structure[path{k}]: {'; '.join(struct)}", pr.pc, bound="oil/water box", replay=rp)
                     if not isinstance(out, SymArray) or out.shape != (n,) or any(isinstance(x, Uninit) for x in out._flat()):
@@ -172,6 +185,8 @@ def job_target(job, target, lengths):
                 if n:
                     neq = T.b_or(*[not_close(out.d[j], scal[j], tol=tol, abs_tol=Fraction(0)) for j in range(n)])
                     job.prove(f"{tag}/elements==scalar calls[path{k}]", pr.pc + [neq], bound="oil/water box", replay=rp)
+                if dt in ("i8", "i4"):
+                    check_defined(job, f"{tag}[path{k}]", pr, bound="integer elements in [15, 20000], oil/water box", overflow=True, replay=rp)
                 job.prove(f"{tag}/reach[path{k}]", pr.pc, expect="sat")
                 if dt == "f8" and n == 2 and isinstance(out, SymArray):
                     _validate(job, target, pr, out)
